@@ -275,6 +275,11 @@ fn g_shared(ch: &mut Chooser) -> B {
             }
         }
     }
+    // values left on the final stack are registered first and in stack order; popped, they reach the
+    // type checker only through the stores, in the order of the storage maps
+    if ch.chance(2, 3) {
+        b.level(0);
+    }
     b.emit(asm::STOP);
     b
 }
